@@ -1,7 +1,10 @@
 package main
 
 import (
+	"go/constant"
 	"go/token"
+	"sync"
+
 	"golang.org/x/tools/go/ssa"
 )
 
@@ -68,6 +71,140 @@ func phiIf(b *ssa.BasicBlock) *ssa.Phi {
 	return p
 }
 
+// phiCmp: b ends in `if [!]*(p == c)` / `(p != c)` where p is a phi defined in b and c a constant (the usual
+// `if err != nil` right after a merge of several outcomes — e.g. the result phis of an inlined helper). Per
+// arrival edge the comparison is about that edge's value: it may be decided (constant operands, a definitely
+// non-nil error) and it can be matched by condition patterns as if it had been written on that path.
+type phiCmpInfo struct {
+	phi  *ssa.Phi
+	bo   *ssa.BinOp
+	flip bool
+	phiX bool
+}
+
+func phiCmp(b *ssa.BasicBlock) *phiCmpInfo {
+	if len(b.Instrs) == 0 {
+		return nil
+	}
+	iff, ok := b.Instrs[len(b.Instrs)-1].(*ssa.If)
+	if !ok {
+		return nil
+	}
+	c := iff.Cond
+	flip := false
+	for {
+		u, ok := c.(*ssa.UnOp)
+		if !ok || u.Op != token.NOT {
+			break
+		}
+		c = u.X
+		flip = !flip
+	}
+	bo, ok := c.(*ssa.BinOp)
+	if !ok || (bo.Op != token.EQL && bo.Op != token.NEQ) {
+		return nil
+	}
+	if p, ok := bo.X.(*ssa.Phi); ok && p.Block() == b {
+		if _, isC := bo.Y.(*ssa.Const); isC {
+			return &phiCmpInfo{p, bo, flip, true}
+		}
+	}
+	if p, ok := bo.Y.(*ssa.Phi); ok && p.Block() == b {
+		if _, isC := bo.X.(*ssa.Const); isC {
+			return &phiCmpInfo{p, bo, flip, false}
+		}
+	}
+	return nil
+}
+
+var virtualConds sync.Map // key {bo,k} → *ssa.BinOp
+
+// condFor: the comparison as it reads on arrival edge k (a detached BinOp over that edge's value).
+func (pc *phiCmpInfo) condFor(k int) *ssa.BinOp {
+	type key struct {
+		bo *ssa.BinOp
+		k  int
+	}
+	if v, ok := virtualConds.Load(key{pc.bo, k}); ok {
+		return v.(*ssa.BinOp)
+	}
+	nb := &ssa.BinOp{Op: pc.bo.Op, X: pc.bo.X, Y: pc.bo.Y}
+	if pc.phiX {
+		nb.X = pc.phi.Edges[k]
+	} else {
+		nb.Y = pc.phi.Edges[k]
+	}
+	setRegType(nb, pc.bo.Type())
+	setInstrBlock(nb, pc.bo.Block())
+	v, _ := virtualConds.LoadOrStore(key{pc.bo, k}, nb)
+	return v.(*ssa.BinOp)
+}
+
+// decided: the truth of the If's condition on arrival edge k, when it follows from the edge value alone.
+func (pc *phiCmpInfo) decided(k int) (val bool, known bool) {
+	ev := pc.phi.Edges[k]
+	other := pc.bo.Y
+	if !pc.phiX {
+		other = pc.bo.X
+	}
+	oc := other.(*ssa.Const)
+	eq, known := false, false
+	if ec, ok := ev.(*ssa.Const); ok {
+		switch {
+		case ec.Value == nil && oc.Value == nil:
+			eq, known = true, true
+		case ec.Value != nil && oc.Value != nil:
+			eq, known = constant.Compare(ec.Value, token.EQL, oc.Value), true
+		}
+	} else if oc.Value == nil && definitelyNonNilErr(ev) {
+		eq, known = false, true
+	} else if oc.Value == nil && pc.edgeValueTestedNonNil(k) {
+		eq, known = false, true
+	}
+	if !known {
+		return false, false
+	}
+	v := eq
+	if pc.bo.Op == token.NEQ {
+		v = !v
+	}
+	if pc.flip {
+		v = !v
+	}
+	return v, true
+}
+
+var nonNilCache sync.Map // key {bo,k} → bool (false while being computed)
+
+// edgeValueTestedNonNil: every path to the end of the k-th predecessor passed the true side of a test
+// `v != nil` of the very value the phi receives on that edge (`if err != nil { return "", err }` in an inlined helper).
+func (pc *phiCmpInfo) edgeValueTestedNonNil(k int) bool {
+	type key struct {
+		bo *ssa.BinOp
+		k  int
+	}
+	if v, ok := nonNilCache.Load(key{pc.bo, k}); ok {
+		return v.(bool)
+	}
+	nonNilCache.Store(key{pc.bo, k}, false)
+	b := pc.bo.Block()
+	ev := pc.phi.Edges[k]
+	p := b.Preds[k]
+	res := false
+	if len(p.Instrs) > 0 {
+		g, _ := Guard(b.Parent(), nil, p.Instrs[len(p.Instrs)-1], NeqC("v != nil", Is(ev), NilV))
+		res = g
+	}
+	nonNilCache.Store(key{pc.bo, k}, res)
+	return res
+}
+
+// perArrival: the branch at the end of b is evaluated per arrival edge.
+func perArrival(b *ssa.BasicBlock) bool { return phiIf(b) != nil || phiCmp(b) != nil }
+
+// trackKey marks (inside an EdgeSet) a block whose last arrival edge the walk must remember (wnode.sel).
+func trackKey(b *ssa.BasicBlock) Edge { return Edge{b, -2, -1} }
+
 // phiIfOperand: for arrival via pred index k, the operand that decides the
 // branch and whether the branch polarity is flipped by NOTs.
 func phiIfOperand(b *ssa.BasicBlock, k int) (ssa.Value, bool) {
@@ -89,6 +226,7 @@ func phiIfOperand(b *ssa.BasicBlock, k int) (ssa.Value, bool) {
 type wnode struct {
 	b    *ssa.BasicBlock
 	pred int
+	sel  int // arrival edge (index into Preds) at the last visit of a tracked block (trackKey), else -1
 }
 
 func predIndex(from, to *ssa.BasicBlock, succIdx int) int {
@@ -123,6 +261,10 @@ func (n wnode) succs(cut EdgeSet) []wnode {
 			}
 			allowed[0], allowed[1] = v, !v
 		}
+	} else if pc := phiCmp(b); pc != nil && n.pred >= 0 && n.pred < len(pc.phi.Edges) {
+		if v, known := pc.decided(n.pred); known {
+			allowed[0], allowed[1] = v, !v
+		}
 	}
 	for i, s := range b.Succs {
 		if len(b.Succs) == 2 && !allowed[i] {
@@ -132,10 +274,14 @@ func (n wnode) succs(cut EdgeSet) []wnode {
 			continue
 		}
 		np := -1
-		if phiIf(s) != nil {
+		if perArrival(s) {
 			np = predIndex(b, s, i)
 		}
-		out = append(out, wnode{s, np})
+		sel := n.sel
+		if cut[trackKey(s)] {
+			sel = predIndex(b, s, i)
+		}
+		out = append(out, wnode{s, np, sel})
 	}
 	return out
 }
@@ -166,14 +312,14 @@ func walk(starts []wnode, cut EdgeSet, visit func(n wnode) bool) {
 }
 
 func entryNodes(b *ssa.BasicBlock) []wnode {
-	if phiIf(b) != nil && len(b.Preds) > 0 {
+	if perArrival(b) && len(b.Preds) > 0 {
 		var out []wnode
 		for i := range b.Preds {
-			out = append(out, wnode{b, i})
+			out = append(out, wnode{b, i, -1})
 		}
 		return out
 	}
-	return []wnode{{b, -1}}
+	return []wnode{{b, -1, -1}}
 }
 
 // nodesAfter: start nodes for "just after instruction from" (successors of its block).
@@ -319,6 +465,31 @@ func IfEdges(fn *ssa.Function, match func(c ssa.Value) (bool, bool)) (EdgeSet, [
 			}
 			continue
 		}
+		if pc := phiCmp(b); pc != nil {
+			hit := false
+			for k := range pc.phi.Edges {
+				if _, known := pc.decided(k); known {
+					continue
+				}
+				ok, side := match(pc.condFor(k))
+				if !ok {
+					continue
+				}
+				if pc.flip {
+					side = !side
+				}
+				hit = true
+				if side {
+					es[Edge{b, 0, k}] = true
+				} else {
+					es[Edge{b, 1, k}] = true
+				}
+			}
+			if hit {
+				ifs = append(ifs, iff)
+				continue
+			}
+		}
 		ok, side := match(iff.Cond)
 		if !ok {
 			continue
@@ -411,6 +582,36 @@ func Reach(fn *ssa.Function, from ssa.Instruction, target ssa.Instruction, cut E
 		return true
 	})
 	return found
+}
+
+// ReachSel: like Reach from the entry, but only paths on which the last arrival at block K was through its
+// k-th predecessor count (the paths on which a phi of K holds its k-th operand).
+func ReachSel(fn *ssa.Function, target ssa.Instruction, cut EdgeSet, K *ssa.BasicBlock, k int) bool {
+	c2 := EdgeSet{}
+	c2.Add(cut)
+	c2[trackKey(K)] = true
+	found := false
+	walk(entryNodes(fn.Blocks[0]), c2, func(n wnode) bool {
+		if found {
+			return false
+		}
+		if n.b == target.Block() && n.sel == k {
+			found = true
+			return false
+		}
+		return true
+	})
+	return found
+}
+
+// GuardLeaf: every path to target on which phi holds its k-th operand passes an edge establishing one of alts.
+func GuardLeaf(fn *ssa.Function, phi *ssa.Phi, k int, target ssa.Instruction, alts ...CP) bool {
+	cut := EdgeSet{}
+	for _, a := range alts {
+		es, _ := IfEdges(fn, a.Match)
+		cut.Add(es)
+	}
+	return !ReachSel(fn, target, cut, phi.Block(), k)
 }
 
 // GuardOrPass: every path from `from`/entry to target takes an edge
